@@ -149,12 +149,15 @@ type Call struct {
 	F    string
 	Args []string
 }
-type Close struct{}
+// Close is `close X` (X == "" means self).
+type Close struct{ X string }
 type Wait struct {
 	X string
 	K Term
 }
+// Fwd is `fwd To From` (To == "" means self).
 type Fwd struct {
+	To   string
 	From string
 	T    *Ty
 }
@@ -203,9 +206,19 @@ func (t *New) Str() string {
 	return fmt.Sprintf("%s <- new %s; %s", t.X, t.Body.Str(), t.K.Str())
 }
 func (t *Call) Str() string  { return fmt.Sprintf("%s(%s)", t.F, strings.Join(t.Args, ", ")) }
-func (t *Close) Str() string { return "close self" }
+func (t *Close) Str() string {
+	if t.X != "" {
+		return "close " + t.X
+	}
+	return "close self"
+}
 func (t *Wait) Str() string  { return fmt.Sprintf("wait %s; %s", t.X, t.K.Str()) }
-func (t *Fwd) Str() string   { return "fwd self " + t.From }
+func (t *Fwd) Str() string {
+	if t.To != "" {
+		return "fwd " + t.To + " " + t.From
+	}
+	return "fwd self " + t.From
+}
 func (t *Split) Str() string {
 	return fmt.Sprintf("<%s, %s> <- split %s; %s", t.X1, t.X2, t.From, t.K.Str())
 }
@@ -342,6 +355,7 @@ func TermSize(t Term) int {
 // contraction-free test of C03/C04).
 type Features struct {
 	Split, Drop, Fwd, MultiProv, Shift, Cast, Call, Print, Case, Recv int
+	Exec, ExplicitProv, MultiArgCall, SelfArgCall, ThreeWay, Modes  int
 }
 
 func (p *Program) Features() Features {
@@ -354,6 +368,9 @@ func (p *Program) Features() Features {
 			walk(x.K)
 		case *Case:
 			f.Case++
+			if len(x.Brs) >= 3 {
+				f.ThreeWay++
+			}
 			for _, b := range x.Brs {
 				walk(b.K)
 			}
@@ -380,14 +397,34 @@ func (p *Program) Features() Features {
 			f.Cast++
 		case *Call:
 			f.Call++
+			if len(x.Args) >= 2 {
+				f.MultiArgCall++
+			}
+			if len(x.Args) >= 1 && x.Args[0] == "self" {
+				f.SelfArgCall++
+			}
 		}
 	}
+	modes := map[string]bool{}
+	for _, t := range p.Types {
+		modes[t.T.M] = true
+		if len(t.T.Brs) >= 3 {
+			f.ThreeWay++
+		}
+	}
+	f.Modes = len(modes)
 	for _, d := range p.Defs {
+		if d.Prov != "" {
+			f.ExplicitProv++
+		}
 		walk(d.Body)
 	}
 	for _, q := range p.Procs {
 		if len(q.Names) > 1 {
 			f.MultiProv++
+		}
+		if q.Exec != "" {
+			f.Exec++
 		}
 		if q.Exec == "" {
 			walk(q.Body)
@@ -446,10 +483,16 @@ func FV(t Term, bound map[string]bool, out map[string]bool) {
 			use(a)
 		}
 	case *Close:
+		if x.X != "" {
+			use(x.X)
+		}
 	case *Wait:
 		use(x.X)
 		FV(x.K, bound, out)
 	case *Fwd:
+		if x.To != "" {
+			use(x.To)
+		}
 		use(x.From)
 	case *Split:
 		use(x.From)
